@@ -733,9 +733,15 @@ func (z *Tokenizer) readMarkupDeclaration() TokenType {
 	if z.readDoctype() {
 		return DoctypeToken
 	}
-	if z.allowCDATA && z.readCDATA() {
+	if z.err == nil && z.allowCDATA && z.readCDATA() {
 		z.convertNUL = true
 		return TextToken
+	}
+	if z.err != nil {
+		// readDoctype or readCDATA stopped at a read error or at the
+		// SetMaxBuf limit. The bytes read so far are a bogus comment;
+		// readByte must not be called again once z.err is set.
+		return CommentToken
 	}
 	// It's a bogus comment.
 	z.readUntilCloseAngle()
